@@ -12,15 +12,38 @@
 (* objects from a few bytes: that is only bounded when n is validated      *)
 (* against the bytes available (Validated = TRUE, the repaired tree).      *)
 (***************************************************************************)
+(* A count VECTOR (NumUnpackStream: one count per folder) drives an         *)
+(* allocation of the SUM of its entries; validating each entry alone       *)
+(* (SumValidated = FALSE, a "fail early" variant) lets k entries of the    *)
+(* maximal admissible size through: k * bound objects from k bytes.        *)
+(* An encoded header may itself be an encoded header: unpacking "while the *)
+(* result is packed" needs progress; the code unpacks ONCE and then        *)
+(* demands a plain header (Rounds = 1); a self-referential packed header   *)
+(* makes an unbounded loop spin (Rounds = 0: negative control).            *)
 EXTENDS Naturals, TLC
-CONSTANTS Size, Big, Validated
-Counts == {0, 1, 2, Big}
-Loops == {"packsizes", "folders", "coders", "unpacksizes", "numunpack", "digests", "files_prealloc", "names", "boolvector_alldefined"}
+CONSTANTS Size, Big, Validated, SumValidated, Rounds
+Counts == {0, 1, 2, 8 * Size, Big}        \* 8 * Size: passes a per-item validation, not as a sum
+Loops == {"packsizes", "folders", "coders", "unpacksizes", "numunpack", "digests", "files_prealloc", "names", "boolvector_alldefined",
+          "substreams_total", "packed_header_chain"}
 VARIABLES remaining, alloc, loop, n, pc, failed
 vars == <<remaining, alloc, loop, n, pc, failed>>
 Init == remaining = Size /\ alloc = 0 /\ loop \in Loops /\ n \in Counts /\ pc = "start" /\ failed = FALSE
 PreAllocates == loop \in {"files_prealloc", "boolvector_alldefined"}
-Start == /\ pc = "start"
+Bound == 8 * remaining + 8
+(* k counts (k <= remaining: each takes a byte), every one equal to n; allocation of k * n digests / sizes *)
+StartSum == /\ pc = "start" /\ loop = "substreams_total"
+            /\ \E k \in 1..remaining :
+                 IF (SumValidated /\ k * n > Bound) \/ (~SumValidated /\ Validated /\ n > Bound)
+                 THEN failed' = TRUE /\ pc' = "done" /\ UNCHANGED alloc
+                 ELSE alloc' = alloc + k * n /\ pc' = "done" /\ UNCHANGED failed
+            /\ UNCHANGED <<remaining, loop, n>>
+(* a packed header that unpacks to a packed header (to itself, in the worst case): n = rounds done so far *)
+StartChain == /\ pc = "start" /\ loop = "packed_header_chain" /\ pc' = "chain" /\ n' = 0 /\ UNCHANGED <<remaining, alloc, loop, failed>>
+Unpack == /\ pc = "chain"
+          /\ IF Rounds > 0 /\ n >= Rounds THEN failed' = TRUE /\ pc' = "done" /\ UNCHANGED n      \* a plain header is demanded now: TypeError / Bad7zFile
+             ELSE n' = (IF n < 3 THEN n + 1 ELSE n) /\ UNCHANGED <<pc, failed>>                   \* another round (the counter saturates: state space stays finite)
+          /\ UNCHANGED <<remaining, alloc, loop>>
+Start == /\ pc = "start" /\ loop \notin {"substreams_total", "packed_header_chain"}
          /\ IF PreAllocates
             THEN IF Validated /\ n > 8 * remaining + 8
                  THEN failed' = TRUE /\ pc' = "done" /\ UNCHANGED alloc          \* Bad7zFile: more items than the data can describe
@@ -32,7 +55,7 @@ Iter == /\ pc = "loop" /\ n > 0
            ELSE remaining' = remaining - 1 /\ alloc' = alloc + 1 /\ n' = n - 1 /\ UNCHANGED <<pc, failed>>
         /\ UNCHANGED loop
 Finish == pc = "loop" /\ n = 0 /\ pc' = "done" /\ UNCHANGED <<remaining, alloc, loop, n, failed>>
-Next == Start \/ Iter \/ Finish
+Next == Start \/ StartSum \/ StartChain \/ Unpack \/ Iter \/ Finish
 Spec == Init /\ [][Next]_vars /\ WF_vars(Next)
 (* memory proportional to the input *)
 Proportional == alloc <= 8 * Size + 8
